@@ -6,41 +6,43 @@ def obsStr (p : Pos) : String :=
   let d := p.winDetails
   s!"{fmtPos p} over={if d.over then 1 else 0}{colorStr d.winner} hash={p.hashOf.toNat} nmoves={p.allMoves.length}"
 
-def setSlots (st : St) (k : Nat) (hi : Option Nat) (pv : Option Pos) : St :=
-  { st with hslots := st.hslots.setIfInBounds k hi, pslots := st.pslots.setIfInBounds k pv }
+/-- run one `Tak.Op` on both interpreters; `none` if they disagree about the outcome (never: `C09.heap_refines_pure`) -/
+def stepBoth (st : St) (op : Op) : Option (St × StepRes) :=
+  let (hs, r1) := st.hs.step st.basis op
+  let (ps, r2) := st.ps.step st.basis op
+  if r1 = r2 then some ({ st with hs := hs, ps := ps }, r1) else none
+
+def setSlot (st : St) (k : Nat) (v : Option Nat) : St := { st with slots := st.slots.setIfInBounds k v }
 
 def handleAlloc : Handler := fun st op args =>
   match op, args with
-  | "case", _ => some ({ st with heap := {}, hslots := Array.replicate 16 none, pslots := Array.replicate 16 none }, "ok")
+  | "case", _ => some ({ st with hs := {}, ps := #[], slots := Array.replicate 16 none }, "ok")
   | "h.new", [slot, size, pieces, caps, bwt] =>
     match slot.toNat?, size.toNat?, pieces.toNat?, caps.toNat?, bwt.toNat? with
     | some k, some n, some pc, some cp, some b =>
-      let cfg : Cfg := ⟨n, pc, cp, b != 0⟩
-      match st.heap.new cfg, Pos.new cfg with
-      | .ok (h, i), .ok p => some (setSlots { st with heap := h } k (some i) (some p), "ok")
-      | _, _ => some (st, "panic")
+      match stepBoth st (.new ⟨n, pc, cp, b != 0⟩) with
+      | some (st, .ok i) => some (setSlot st k (some i), "ok")
+      | some (st, _) => some (st, "panic")
+      | none => some (st, "model-mismatch")
     | _, _, _, _, _ => some (st, "bad-op")
   | "h.fromraw", [slot, ptok] =>
     match slot.toNat?, parsePos ptok with
     | some k, some (p, true) =>
-      let (h, i) := st.heap.allocFrom p Slice.nil
-      match h.analyze i with
-      | some h => some (setSlots { st with heap := h } k (some i) (some p), "ok")
-      | none => some (st, "hang")
+      match stepBoth st (.fromValue p) with
+      | some (st, .ok i) => some (setSlot st k (some i), "ok")
+      | some (st, _) => some (st, "hang")
+      | none => some (st, "model-mismatch")
     | _, _ => some (st, "bad-op")
   | "h.clone", [dst, src] =>
     match dst.toNat?, src.toNat? with
     | some d, some s =>
-      match (st.hslots.getD s none), (st.pslots.getD s none) with
-      | some si, some pv =>
-        match st.heap.clone si with
-        | some (h, i) =>
-          -- pure semantics of Clone: the same value, analysed
-          match pv.analyze with
-          | some pv' => some (setSlots { st with heap := h } d (some i) (some pv'), "ok")
-          | none => some (st, "hang")
-        | none => some (st, "bad-slot")
-      | _, _ => some (st, "bad-slot")
+      match st.slots.getD s none with
+      | some si =>
+        match stepBoth st (.clone si) with
+        | some (st, .ok i) => some (setSlot st d (some i), "ok")
+        | some (st, _) => some (st, "bad-slot")
+        | none => some (st, "model-mismatch")
+      | none => some (st, "bad-slot")
     | _, _ => some (st, "bad-op")
   | "h.move", dst :: src :: mtok :: rest =>
     match dst.toNat?, src.toNat?, parseMove mtok with
@@ -50,49 +52,49 @@ def handleAlloc : Handler := fun st op args =>
         | [] => some none
         | [b] => b.toNat?.map some
         | _ => none
-      match buf, (st.hslots.getD s none), (st.pslots.getD s none) with
-      | some bufSlot, some si, some pv =>
-        let bufObj : Option (Option Nat) :=
+      match buf, st.slots.getD s none with
+      | some bufSlot, some si =>
+        let mop : Option Op :=
           match bufSlot with
-          | none => some none
-          | some b => (st.hslots.getD b none).map some
-        match bufObj with
+          | none => some (.move si m)
+          | some b => (st.slots.getD b none).map (fun bi => .movepre si m bi)
+        match mop with
         | none => some (st, "bad-slot")
-        | some bo =>
-          match st.heap.move st.basis si m bo with
-          | none => some (st, "bad-slot")
-          | some (h, res) =>
-            let st := { st with heap := h }
+        | some mop =>
+          match stepBoth st mop with
+          | none => some (st, "model-mismatch")
+          | some (st, .rejected) => some (st, "bad-slot")
+          | some (st, .ok i) =>
             -- a buffer that was handed in is no longer the position it used to be
             let st := match bufSlot with
-              | some b => setSlots st b none none
+              | some b => setSlot st b none
               | none => st
-            match res, pv.apply st.basis m with
-            | some i, .ok q => some (setSlots st d (some i) (some q), "ok")
-            | none, .error _ =>
-              -- failed move: Go returns nil; the buffer object stays usable as a buffer only
-              let st := match bufSlot, bo with
-                | some b, some bi => { st with hslots := st.hslots.setIfInBounds b (some bi) }
-                | _, _ => st
-              some (setSlots st d none none, "err")
-            | _, _ => some (st, "model-mismatch")
-      | _, _, _ => some (st, "bad-slot")
+            some (setSlot st d (some i), "ok")
+          | some (st, .failed) =>
+            -- failed move: Go returns nil; the buffer object stays in its slot, usable as a buffer only
+            some (setSlot st d none, "err")
+      | _, _ => some (st, "bad-slot")
     | _, _, _ => some (st, "bad-op")
   | "h.obs", [slot] =>
     match slot.toNat? with
     | some k =>
-      match st.hslots.getD k none, st.pslots.getD k none with
-      | some i, some _ =>
-        match st.heap.observe i with
-        | some p => some (st, obsStr p)
-        | none => some (st, "bad-slot")
-      | _, _ => some (st, "dead")
+      match st.slots.getD k none with
+      | some i =>
+        if i ∈ st.hs.live then
+          match st.hs.heap.observe i with
+          | some p => some (st, obsStr p)
+          | none => some (st, "bad-slot")
+        else some (st, "dead")
+      | none => some (st, "dead")
     | none => some (st, "bad-op")
   | "p.obs", [slot] =>
     match slot.toNat? with
     | some k =>
-      match st.pslots.getD k none with
-      | some p => some (st, obsStr p)
+      match st.slots.getD k none with
+      | some i =>
+        match st.ps.get i with
+        | some p => some (st, obsStr p)
+        | none => some (st, "dead")
       | none => some (st, "dead")
     | none => some (st, "bad-op")
   | _, _ => none
